@@ -14,7 +14,23 @@ Hypothesis Hfix : tbl_img_fixed = true.
 Hypothesis Hsc : tbl_img_scalar = true.
 
 Lemma tbl_find_in t c l : tbl_find t c = Some l -> In (c, l) t.
-Proof. induction t as [|[k v] t IH]; cbn; [discriminate|]. destruct (k =? c) eqn:E; [intros [= <-]; apply N.eqb_eq in E; subst; left; reflexivity|intros H; right; apply IH; exact H]. Qed.
+Proof. induction t as [|[k v] t IH]; cbn; [discriminate|]. destruct (k =? c) eqn:E; [intros [= <-]; apply N.eqb_eq in E; subst; left; reflexivity|]. destruct (c <? k); [discriminate|]. intros H; right; apply IH; exact H. Qed.
+(* faithfulness of the early exit: on a table whose keys strictly ascend, the look-up finds every entry *)
+Fixpoint keys_ascend (t : list (N * list N)) : bool :=
+  match t with (k1, _) :: (((k2, _) :: _) as r) => (k1 <? k2) && keys_ascend r | _ => true end.
+Lemma keys_ascend_lb t k v : keys_ascend ((k, v) :: t) = true -> forall e, In e t -> k < fst e.
+Proof.
+  revert k v. induction t as [|[k2 v2] t IH]; intros k v H e Hin; [destruct Hin|]. cbn [keys_ascend] in H. apply andb_true_iff in H. destruct H as [H1 H2]. apply N.ltb_lt in H1.
+  destruct Hin as [<-|Hin]; [exact H1|]. specialize (IH k2 v2 H2 e Hin). cbn [fst] in *. lia.
+Qed.
+Lemma tbl_find_complete t c l : keys_ascend t = true -> In (c, l) t -> tbl_find t c = Some l.
+Proof.
+  induction t as [|[k v] t IH]; intros Hs Hin; [destruct Hin|]. cbn [tbl_find]. destruct Hin as [E|Hin].
+  - injection E as -> ->. rewrite N.eqb_refl. reflexivity.
+  - pose proof (keys_ascend_lb t k v Hs _ Hin) as Hlt. cbn [fst] in Hlt. assert (Hne : (k =? c) = false) by (apply N.eqb_neq; lia). rewrite Hne.
+    assert (Hnl : (c <? k) = false) by (apply N.ltb_ge; lia). rewrite Hnl. apply IH; [|exact Hin].
+    destruct t as [|[k2 v2] t']; [reflexivity|]. cbn [keys_ascend] in Hs. apply andb_true_iff in Hs. tauto.
+Qed.
 Lemma leqb_refl l : leqb l l = true.
 Proof. induction l as [|x l IH]; cbn; [reflexivity|]. rewrite N.eqb_refl. exact IH. Qed.
 Lemma lower_c_img_fixed c d : In d (lower_c cfg c) -> lower_c cfg d = [d].
